@@ -102,6 +102,75 @@ def sc_single(V, n=3, preselect=False, check=False, rowwise=False, hi=2):
     _check_single(V, move, op, labels, pos0, atoms, ok, info, check)
 
 
+class SpyOp:
+    """Wraps a SHIPPED operation: the real calculate() runs (with whatever side effects it has); its result and the
+    atoms it was asked about are recorded."""
+
+    def __init__(self, real):
+        self.real = real
+        self.calls = []
+
+    def calculate(self, context):
+        r = self.real.calculate(context)
+        self.calls.append((list(int(x) for x in context._moving_indices), np.array(r, dtype=object if symx.is_sym(np.asarray(r, dtype=object).ravel()[0]) or np.asarray(r).dtype == object else float).copy()))
+        return r
+
+    def to_dict(self):
+        return self.real.to_dict()
+
+
+def _shipped(which):
+    from quansino.operations.displacement import Ball, Box, Rotation, Sphere, Translation, TranslationRotation
+
+    return {"Box": lambda: Box(0.3), "Ball": lambda: Ball(0.3), "Sphere": lambda: Sphere(0.3), "Translation": Translation, "Rotation": Rotation, "TranslationRotation": TranslationRotation, "Rotation+Translation": lambda: Rotation() + Translation(), "Box+Translation": lambda: Box(0.2) + Translation()}[which]()
+
+
+def sc_shipped(V, which="Translation", n=3, molecular=True):
+    """The shipped operations inside a DisplacementMove on a periodic triclinic cell with atoms anywhere in space
+    (also outside the unit cell): what the operation does to the atoms as a side effect counts as well."""
+    from quansino.moves.displacement import DisplacementMove
+
+    info = f"shipped:{which}:n={n}:mol={molecular}"
+    atoms = mcsim.make_atoms(V, n, extras=False)
+    labels = np.array(([0, 0] + list(range(1, n - 1)))[:n] if molecular else list(range(n)))
+    labels[-1] = -1  # one atom that must never be displaced
+    rng = mcsim.make_rng(V)
+    ctx = _ctx(V, atoms, rng)
+    if V.mode == "sym" and "Rotation" in which:
+        from . import c10
+
+        E_ = symx.E()
+        E_.pi()
+        shims.SymAtoms.euler_rotate = c10._sym_euler_rotate
+    op = SpyOp(_shipped(which))
+    move = DisplacementMove(labels.copy(), op)
+    pos0 = np.asarray(atoms.positions, dtype=object if V.mode == "sym" else float).copy()
+    try:
+        ok = bool(move(ctx))
+    except (symx.PathAbort, symx.BoundHit, symx.Unsupported, symx.ReplayMismatch):
+        raise
+    except Exception as ex:  # noqa: BLE001
+        V.fail("eligible-particle-is-moved", info=info + ":" + type(ex).__name__ + ":" + str(ex)[:60])
+        return
+    V.reach("moved" if ok else "failed")
+    V.prove(ok, "eligible-particle-is-moved", info=info)
+    if not ok:
+        return
+    L = int(move.displaced_labels)
+    idx = [i for i in range(n) if int(labels[i]) == L]
+    pos1 = np.asarray(atoms.positions, dtype=object if V.mode == "sym" else float)
+    moved_idx, res = op.calls[-1]
+    V.prove(sorted(moved_idx) == idx, "operation-asked-about-the-selected-atoms", info=info)
+    res = np.asarray(res, dtype=pos1.dtype)
+    res = res.reshape(-1, 3)
+    for i in range(n):
+        if i in idx:
+            row = res[idx.index(i)] if res.shape[0] > 1 else res[0]
+            V.prove(V.eq(pos1[i], pos0[i] + row, tol=1e-9), "selected-atoms-move-by-the-operation-result", info=info + f":atom={i}")
+        else:
+            V.prove(mcsim.same(V, pos1[i], pos0[i]), "other-atoms-untouched", info=info + f":atom={i}:label={int(labels[i])}")
+
+
 def sc_composite(V, n=3, k=2, same_object=False, preselect=False, check=False, hi=2):
     from quansino.moves.displacement import DisplacementMove
 
@@ -204,7 +273,7 @@ def sc_after_notification(V, n=3, default=-1, composite=False):
         V.prove(target.number_of_moved_particles == min(2, len(elig)), "moves-min(n,eligible)-particles", info=info + f":{target.number_of_moved_particles}!=min(2,{len(elig)})")
 
 
-SCENARIOS = {"single": sc_single, "composite": sc_composite, "after_notification": sc_after_notification}
+SCENARIOS = {"single": sc_single, "composite": sc_composite, "after_notification": sc_after_notification, "shipped": sc_shipped}
 replay = generic_replay(SCENARIOS)
 
 
@@ -223,6 +292,8 @@ def _plan(tier):
         ("after_notification", dict(n=2, default=-1, composite=True), R),
         ("after_notification", dict(n=2, default=0, composite=False), ("moved",)),
     ]
+    for w in ("Box", "Ball", "Translation", "Rotation", "TranslationRotation", "Rotation+Translation") if q else ("Box", "Ball", "Sphere", "Translation", "Rotation", "TranslationRotation", "Rotation+Translation", "Box+Translation"):
+        P.append(("shipped", dict(which=w, n=3, molecular=True), ("moved",)))
     if not q:
         P.append(("composite", dict(n=4, k=3, same_object=False, preselect=True, check=False), R))
         P.append(("composite", dict(n=4, k=3, same_object=False, preselect=False, check=True), R))
